@@ -340,7 +340,7 @@ func (d *daemon) waitForOutput(pred func(b []byte) bool, watchdog time.Duration)
 
 // pullFile appends what the events file has gained since the last call to
 // outData (polling must not re-read a file that may have grown to hundreds of
-// megabytes every few milliseconds). At most 128 MiB are kept.
+// megabytes every few milliseconds).
 func (d *daemon) pullFile() {
 	if st, err := os.Stat(d.outPath); err != nil || !st.Mode().IsRegular() {
 		return
@@ -356,7 +356,7 @@ func (d *daemon) pullFile() {
 		return
 	}
 	buf := make([]byte, 1<<20)
-	for len(d.outData) < 128<<20 {
+	for {
 		n, err := f.Read(buf)
 		d.outData = append(d.outData, buf[:n]...)
 		d.pullOff += int64(n)
